@@ -224,7 +224,7 @@ func parseParagraph(input string) (Rules, error) {
 //	[]string{"owner", "@{user_config_dirs}/powerdevilrc{,.@{rand6}}", "rwl", "->", "@{user_config_dirs}/#@{int}"}
 func tokenizeRule(str string) []string {
 	var currentToken strings.Builder
-	isVariable, wasTokPLUS, quoted := false, false, false
+	isVariable, wasTokPLUS, quoted, assigned := false, false, false, false
 
 	blockStack := []rune{}
 	tokens := make([]string, 0, len(str)/2)
@@ -250,8 +250,8 @@ func tokenizeRule(str string) []string {
 				currentToken.Reset()
 			}
 
-		case (r == '+' || r == '=') && len(blockStack) == 0 && !quoted && isVariable:
-			// Handle variable assignment
+		case (r == '+' || r == '=') && len(blockStack) == 0 && !quoted && isVariable && !assigned:
+			// Handle variable assignment: only the operator that follows the name, a value can hold '+' and '='
 			if currentToken.Len() != 0 {
 				tokens = append(tokens, currentToken.String())
 				currentToken.Reset()
@@ -262,6 +262,7 @@ func tokenizeRule(str string) []string {
 				tokens = append(tokens, string(r))
 			}
 			wasTokPLUS = (r == '+')
+			assigned = (r == '=')
 
 		case r == '"' && len(blockStack) == 0:
 			quoted = !quoted
